@@ -66,6 +66,9 @@ type Script struct {
 	// with an unbuffered output reads at most one item from an input between two quiescent
 	// points and producers blocked on a small input buffer keep it full at all times.
 	Strict bool `json:"receive_one_at_a_time,omitempty"`
+	// HandleLag: v1 simplified discipline: Handle returns this many virtual ns after its context
+	// was cancelled (it honours the context, it just is not instantaneous).
+	HandleLag int64 `json:"handle_return_lag_ns,omitempty"`
 }
 
 // Item is what travels through the discipline: globally unique identity.
